@@ -52,9 +52,9 @@ def graph(name, need_mc=False):
         os.unlink(dot)
         with open(descs) as fh:
             d = json.load(fh)
-        with open(cache + ".tmp", "wb") as fh:
+        with open(cache + f".{os.getpid()}.tmp", "wb") as fh:
             pickle.dump(dict(init=init, adj=dict(adj), descs=d, mc=res.summary()), fh)
-        os.replace(cache + ".tmp", cache)
+        os.replace(cache + f".{os.getpid()}.tmp", cache)
     with open(cache, "rb") as fh:
         g = pickle.load(fh)
     if need_mc and res is None:
